@@ -17,6 +17,8 @@ for p in props:
         vio = re.findall(r"^violated: (C\d\d\.[A-Z]\d+)\|", out, re.M)
         ok_demo = un and ch and un.group(1) == "0" and ch.group(1) != "0"
         status = "missed"
+        if not vio and re.search(r"^not-established:", out, re.M):
+            status = "flagged-not-established"
         if vio:
             status = "caught-after-strengthening" if sid in after else "caught"
         notes = ""
